@@ -688,6 +688,36 @@ def do_compute(m: Machine, step):
             m.probe_hit("compute_result_io")
     elif what == "plot":
         do_plot(m, a, b, step)
+    elif what == "plot_result":
+        # the plotting helper behind `evo_ape/evo_rpe --plot`
+        keys = [u for u in step.get("results", ()) if u in m.results]
+        if not keys:
+            return
+        res = m.results[keys[0]][0]
+        trajs = list(res.trajectories.values())
+        if len(trajs) < 2 or any(t.num_poses < 2 for t in trajs):
+            return
+        import argparse
+        import matplotlib.pyplot as plt
+        args = argparse.Namespace(
+            plot_mode=step.get("mode", "xy"),
+            plot_x_dimension=step.get("x_dimension", "index"),
+            plot_colormap_min=None, plot_colormap_max=None,
+            plot_colormap_max_percentile=step.get("percentile"),
+            map_tile=None, ros_map_yaml=None, plot=False, save_plot=None,
+            serialize_plot=None, no_warnings=True)
+        S = evo.settings.SETTINGS
+        saved = dict(S)
+        try:
+            S["plot_figsize"] = [2, 2]
+            S["plot_trajectory_length_unit"] = step.get("length_unit", "m")
+            S["plot_pose_correspondences"] = bool(step.get("markers"))
+            evo.common_ape_rpe.plot_result(args, res, trajs[0], trajs[1])
+            m.probe_hit("compute_plot_result")
+        finally:
+            S.clear()
+            S.update(saved)
+            plt.close("all")
     else:
         raise HarnessError(f"unknown computation {what}")
 
@@ -1154,7 +1184,8 @@ def gen_step(m: Machine, rng, uid):
                        "umeyama", "write_tum", "write_kitti", "to_df",
                        "merge_results", "result_io", "ape", "rpe", "lie",
                        "geometry", "filter_pairs", "helpers"] +
-                      (["plot"] if rng.random() < 0.15 else []))
+                      (["plot"] if rng.random() < 0.15 else []) +
+                      (["plot_result"] if rng.random() < 0.08 else []))
     st = {"op": "compute", "uid": uid, "what": what, "a": e.uid}
     same = [x for x in alive if x.model.n == n and x is not e]
     if what in ("ape", "rpe", "main_ape", "main_rpe", "umeyama"):
@@ -1208,9 +1239,14 @@ def gen_step(m: Machine, rng, uid):
             return None
         st["dist"] = rng.choice([0.1, 1.0]) * scale
         st["angle"] = rng.choice([0.1, 1.0])
-    elif what in ("merge_results", "result_io"):
+    elif what in ("merge_results", "result_io", "plot_result"):
         if not m.results:
             return None
+        st["mode"] = rng.choice(["xy", "xz", "xyz"])
+        st["x_dimension"] = rng.choice(["index", "seconds", "distances"])
+        st["length_unit"] = rng.choice(["m", "mm", "km", "cm"])
+        st["percentile"] = rng.choice([None, 90])
+        st["markers"] = rng.random() < 0.3
         keys = sorted(m.results)
         st["results"] = rng.sample(keys, min(len(keys), rng.randint(1, 3)))
     elif what == "plot":
